@@ -687,6 +687,6 @@ Executor.apply = _apply
 def strata(tier):
     q = tier == "quick"
     return [
-        Stratum("repeat-history", "hyp", repeated_history(), 320 if q else 8000),
         Stratum("pool-history", "machine", machine, 900 if q else 20000),
+        Stratum("repeat-history", "hyp", repeated_history(), 320 if q else 8000),
     ]
